@@ -12,7 +12,8 @@ PROP = "C08"
 LEVEL = "other"
 MODULE = "PropC08"
 THEOREMS = ["C08_error_leaves_clean_machine", "C08_error_keeps_globals", "C08_error_keeps_the_program", "C08_run_error_resets",
-            "C08_simple_failure_is_invisible", "C08_simple_relocation", "C08_simple_sessions", "C08_failed_statement_leaves_ready", "C08_statement_relocation", "C08_twin_sessions_partial"]
+            "C08_simple_failure_is_invisible", "C08_simple_relocation", "C08_simple_sessions", "C08_failed_statement_leaves_ready", "C08_statement_relocation", "C08_twin_sessions_partial",
+            "C08_twin_sessions_with_definitions_partial", "C08_failed_statement_then_any_session_partial"]
 
 HELPERS = [
     "bz = (n) -> if n <= 0 1/0 else 1 + bz(n - 1)",
